@@ -53,6 +53,35 @@ def design_results(pid, tier, plan):
     h = spec_hash(None)
     for mc in plan.get("mc", []):
         mc = dict(mc)
+        if mc.get("tool") == "apalache":
+            # symbolic check over unbounded integers: every state invariant at length 0
+            cp = os.path.join(cache_dir, "apalache_%s_%s_%s.json" % (mc["module"], mc["inv"], h))
+            if os.path.exists(cp):
+                r = json.load(open(cp))
+            else:
+                import subprocess, shutil
+                out_dir = os.path.join(BUILD, "apalache", mc["module"])
+                shutil.rmtree(out_dir, ignore_errors=True)
+                t0 = time.time()
+                try:
+                    pr = subprocess.run(["apalache-mc", "check", "--length=%d" % mc.get("length", 0), "--inv=" + mc["inv"], "--out-dir=" + out_dir,
+                                         mc["module"] + ".tla"], cwd=T._specdir(), stdout=subprocess.PIPE, stderr=subprocess.STDOUT, timeout=mc.get("timeout", 900))
+                    txt = pr.stdout.decode("utf-8", "replace")
+                    r = {"ok": "The outcome is: NoError" in txt, "violated": "The outcome is: Error" in txt, "to": False, "wall": time.time() - t0, "out": txt[-3000:]}
+                except subprocess.TimeoutExpired:
+                    r = {"ok": False, "violated": False, "to": True, "wall": time.time() - t0, "out": "timeout"}
+                shutil.rmtree(out_dir, ignore_errors=True)
+                if r["ok"] or r["violated"]:
+                    json.dump(r, open(cp, "w"))
+            out["configs"].append({"config": "apalache:%s/%s" % (mc["module"], mc["inv"]), "ok": r["ok"], "unbounded": True, "wall_s": round(r["wall"], 1),
+                                   "timed_out": r["to"]})
+            if r.get("violated") and mc.get("owner", True):
+                d = os.path.join(BUILD, "replay", pid, "design_" + mc["module"])
+                os.makedirs(d, exist_ok=True)
+                with open(os.path.join(d, "apalache.out"), "w") as f:
+                    f.write(r.get("out", ""))
+                out["failed"] = d
+            continue
         if tier == "thorough" and mc.get("cfg_thorough"):
             mc["cfg"] = mc["cfg_thorough"]
         name = mc["module"] + ("/" + mc["cfg"] if mc.get("cfg") else "")
@@ -425,7 +454,7 @@ PLANS["C16"] = {
 
 PLANS["C27"] = {
     "jobs": lambda seed, tier: spread(seed, "C27", N(tier, 150, 3000), ["QF_LIA", "QF_LIA", "QF_IDL", "QF_LIA", "QF_UFLIA"], "rounding"),
-    "mc": [{"module": "MC_IntRound"}],
+    "mc": [{"module": "MC_IntRound"}, {"tool": "apalache", "module": "IntRoundU", "inv": "All", "length": 0}],
     "remap": lambda v: "C27" if v.get("p") in ("C01", "C02", "C03", "C04") else v.get("p"),
     "rule": "boxed LIA/IDL scripts whose answers hinge on rounding: div and mod by constants of both signs (variables and constant folding), "
             "strict bounds with non-unit coefficients, equalities needing gcd reasoning, negated difference constraints; every check-sat "
